@@ -93,10 +93,18 @@ func AllStores(cell *ssa.Alloc) []*ssa.Store {
 // variables captured by closures), type changes and trivial phis to the value that
 // defines it. Two SSA values with the same Canon are the same run-time value.
 func Canon(v ssa.Value) ssa.Value {
-	return canon(v, map[ssa.Value]bool{})
+	return canon(v, map[ssa.Value]bool{}, false)
 }
 
-func canon(v ssa.Value, onPhi map[ssa.Value]bool) ssa.Value {
+// CanonX is Canon that also resolves a parameter of an unexported function with a single
+// static call site (an extracted helper) to the argument passed at that site, so that
+// value identities survive "extract method" refactorings. Only for rules that relate
+// values across a call chain; rules about a function's own parameters use Canon.
+func CanonX(v ssa.Value) ssa.Value {
+	return canon(v, map[ssa.Value]bool{}, true)
+}
+
+func canon(v ssa.Value, onPhi map[ssa.Value]bool, cross bool) ssa.Value {
 	for i := 0; i < 30; i++ {
 		switch x := v.(type) {
 		case *ssa.ChangeType:
@@ -115,6 +123,15 @@ func canon(v ssa.Value, onPhi map[ssa.Value]bool) ssa.Value {
 				return v
 			}
 			v = st[0].Val
+		case *ssa.Parameter:
+			if !cross {
+				return v
+			}
+			a := ParamArg(x)
+			if a == nil {
+				return v
+			}
+			v = a
 		case *ssa.Phi:
 			if onPhi[x] {
 				return v
@@ -126,7 +143,7 @@ func canon(v ssa.Value, onPhi map[ssa.Value]bool) ssa.Value {
 				if e == ssa.Value(x) {
 					continue
 				}
-				ce := canon(e, onPhi)
+				ce := canon(e, onPhi, cross)
 				if ce == ssa.Value(x) {
 					continue
 				}
@@ -208,7 +225,24 @@ func (r FieldRef) Is(pkg, typ, field string) bool {
 	if r.Struct == nil || r.Struct.Obj() == nil || r.Struct.Obj().Pkg() == nil {
 		return false
 	}
-	return r.Field == field && r.Struct.Obj().Name() == typ && r.Struct.Obj().Pkg().Path() == fullPkg(pkg)
+	return r.Field == ResolveField(pkg, typ, field) && r.Struct.Obj().Name() == typ && r.Struct.Obj().Pkg().Path() == fullPkg(pkg)
+}
+
+// Field roles: the checks name some unexported fields by the name they have in the tree
+// the rules were written against. When such a field has been renamed, the role is
+// re-discovered structurally (internal/props/roles.go) and registered here, so that a
+// rename alone never changes a verdict.
+var fieldAlias = map[fieldKey]string{}
+
+// SetFieldAlias registers that role `role` of struct pkg.typ is played by field `actual`.
+func SetFieldAlias(pkg, typ, role, actual string) { fieldAlias[fieldKey{pkg, typ, role}] = actual }
+
+// ResolveField maps a role name to the field that plays it (identity when not aliased).
+func ResolveField(pkg, typ, field string) string {
+	if a, ok := fieldAlias[fieldKey{pkg, typ, field}]; ok {
+		return a
+	}
+	return field
 }
 
 // LoadsField reports whether v (after Canon) is a load of pkg.typ.field (through a
